@@ -38,9 +38,19 @@ type fconn struct {
 	timeout   time.Duration
 	deadline  time.Time
 	failClose bool // Close() reports an error (the connection is closed all the same)
+	hold      chan struct{} // while set, Send waits (a peer that does not read: the carrier's buffers are full)
 }
 
 func (c *fconn) Send(p packet.Generic, async bool) error {
+	c.mu.Lock()
+	h := c.hold
+	c.mu.Unlock()
+	if h != nil {
+		select {
+		case <-h:
+		case <-c.cl:
+		}
+	}
 	c.mu.Lock()
 	defer c.mu.Unlock()
 	if c.closed || c.peerGone {
@@ -618,6 +628,28 @@ func (w *World) Idle() {
 	}
 	w.o.Count("stim/idle")
 	time.Sleep(2 * time.Minute)
+	w.settle()
+}
+
+// HoldSends makes every write to connection c wait until ReleaseSends (or the connection's end): its peer has stopped
+// reading.  Not a model stimulus (monitors-only scripts).
+func (w *World) HoldSends(c int) {
+	fc := w.conns[c]
+	fc.mu.Lock()
+	fc.hold = make(chan struct{})
+	fc.mu.Unlock()
+	w.o.Count("stim/holdsends")
+}
+
+func (w *World) ReleaseSends(c int) {
+	fc := w.conns[c]
+	fc.mu.Lock()
+	h := fc.hold
+	fc.hold = nil
+	fc.mu.Unlock()
+	if h != nil {
+		close(h)
+	}
 	w.settle()
 }
 
